@@ -2,15 +2,24 @@ package checks
 
 func init() {
 	Registry["C03"] = func(c *Ctx) {
-		c.R.Rule = "scenario = (graph of <=4 nodes incl. alias / unselected node, <=1 failing target, num_workers in {1,2}); the real dag.Walker + real TaskWorkerPool run under the controlled scheduler for EVERY choice sequence with <= d deviations; on every execution: a command starts only after all transitive dependencies ended successfully, no command starts twice, running commands <= num_workers. Non-trivial = at least one command ran; distinct (scenario, observable trace) pairs are counted."
+		c.R.Rule = "scenario = (graph of <=4 nodes incl. alias / unselected node, <=1 failing target, num_workers in {1,2}); the real dag.Walker + real TaskWorkerPool run under the controlled scheduler for EVERY choice sequence with <= d deviations; on every execution: a command starts only after all transitive dependencies ended successfully, no command starts twice, running commands <= num_workers. Non-trivial = at least one command ran; distinct (scenario, observable trace) pairs are counted. Second part (real binary): histories of <= 3/4 operations over {edit, taint, build} on the chain workspace in load_outputs all and minimal with the no-cache tag on nobody / x / y: no command appears twice in the trace of one build."
 		c.R.Assume("commands are stubs with one scheduling point between start and end (latency = any number of other steps, including zero)", "scheduling points at every lock / once / wait / channel operation / select / close / goroutine start of graph_walker.go and task_worker_pool.go", "interleavings beyond the deviation bound are not covered; hashing / output-loading mutexes are covered by the second harness (mutexmap)")
-		walkCheck("C03", []string{"C03:", "C12:"}, 2, 3)(c)
+		walkCheckBudget("C03", []string{"C03:", "C12:"}, 2, 3, 40, 420)(c)
+		// "each selected target is executed at most once per build" with the real binary: the chain
+		// workspace in both load_outputs modes and all no-cache-tag universes (a no-cache dependency
+		// must not be executed again by each executing dependant)
+		chainCheck("C03", []string{"C03:"}, 3, 4, func(e *chainEngine, thorough bool) {
+			e.universes = []chainState{{}, {Minimal: true}}
+			e.noCache = []string{"", "x", "y"}
+			e.ops = []chainOp{opEditFirst, opTaintY, opBuild}
+		})(c)
 	}
 	Registry["C05"] = func(c *Ctx) {
 		c.R.Rule = "two halves. Schedules: scenario = (graph of <=4 nodes, non-empty set of failing targets (<=1 quick, <=2 thorough), keep-going or fail-fast, num_workers); real Walker + pool under every choice sequence with <= d deviations; keep-going executes exactly selected minus (failed and their descendants), every failure is in the completion map, with fail-fast no command starts after the failing node's routine recorded the failure. Histories: breadth-first search over histories of <= n operations from {make //p:x or //p:y fail (exit code, missing declared output), remove the failure, edit, grog build, grog build --fail-fast} with the REAL binary on the chain workspace x->y->z: dependants of a failed target are not executed, independent targets are, grog exits non-zero naming the failed targets, and a failed target leaves no cache entry (the follow-up build attempts it and its dependants again). Non-trivial = at least one command ran / a build executed some but not all targets."
 		c.R.Assume("commands of the schedule half are stubs; a stub does not start under a cancelled context (like exec.CommandContext)", "failures of the history half are driven by marker files outside the declared inputs (an external condition), so the failing and the succeeding attempt have the same cache key")
 		walkCheckBudget("C05", []string{"C05:"}, 2, 3, 35, 400)(c)
 		chainCheck("C05", []string{"C05:"}, 4, 5, func(e *chainEngine, thorough bool) {
+			e.universes = []chainState{{}, {Queue: true}}
 			e.ops = []chainOp{markOp("fail-y-exit"), markOp("fail-x-exit"), markOp("fail-y-noout"), opEditFirst, opBuild, opBuildFF}
 			if thorough {
 				e.ops = append(e.ops, markOp("fail-y-timeout"), opEditY)
